@@ -75,7 +75,13 @@ func attrTruth(constraint, values []string) int {
 	}
 	for _, c := range constraint {
 		if c == "*" || c == "" {
-			return -1
+			// a list of several entries is neither the wildcard nor the empty constraint: "otherwise the
+			// certificate's values must be exactly the listed values". What a certificate that really carries
+			// the value "*" (or "") should get is left open; any other certificate does not have the listed values
+			if sameSet(dedup(values), dedup(constraint)) {
+				return -1
+			}
+			return 0
 		}
 	}
 	if hasDup(constraint) {
@@ -276,7 +282,7 @@ func c07Gen(t *rapid.T) c07Case {
 	}
 	// at most one flip
 	c.Flip = rapid.SampledFrom([]string{"none", "none", "none", "leaf-expired", "leaf-notyet", "inter-expired", "root-expired", "inter-missing", "inter-moved-to-nowhere",
-		"root-foreign", "inter-nonca", "issuer-foreign", "attr-subset", "attr-superset", "attr-disjoint", "attr-must-be-empty", "dup-value", "dup-short", "dup-short", "no-constraints", "roots-other", "roots-exact", "bad-only", "leaf-selfsigned-critical", "inter-only-in-signature", "inter-only-in-signature"}).Draw(t, "flip")
+		"root-foreign", "inter-nonca", "issuer-foreign", "attr-subset", "attr-superset", "attr-disjoint", "attr-must-be-empty", "attr-star-among-values", "attr-star-among-values", "inter-renewed-by-caller", "inter-renewed-by-caller", "bundle-first-known", "bundle-first-known", "dup-value", "dup-short", "dup-short", "no-constraints", "roots-other", "roots-exact", "bad-only", "leaf-selfsigned-critical", "inter-only-in-signature", "inter-only-in-signature"}).Draw(t, "flip")
 	good := &c.Constraints[goodIdx]
 	pickAttr := func() (*[]string, *[]string) {
 		switch rapid.IntRange(0, 3).Draw(t, "attr") {
@@ -313,6 +319,22 @@ func c07Gen(t *rapid.T) c07Case {
 			c.SigChain = []string{drop}
 			c.E2E = true
 		}
+	case "inter-renewed-by-caller":
+		// the layout still carries the expired certificate of an intermediate CA, the caller hands over
+		// the renewed one (same key, same name): the chain is fine
+		if nInter > 0 {
+			which := fmt.Sprintf("i%d", rapid.IntRange(0, nInter-1).Draw(t, "renewed"))
+			spec := c07Spec(c, which)
+			c.PKI.Certs = append(c.PKI.Certs, hx.PKICert{Name: which + "old", Issuer: spec.Issuer, IsCA: true, Validity: "expired", KeyKind: spec.KeyKind, KeyOf: which, CN: "ca-" + which})
+			c.LayoutInters = append(remove(c.LayoutInters, which), which+"old")
+			c.CallerInters = append(remove(c.CallerInters, which), which)
+		}
+	case "bundle-first-known":
+		// the caller's chain file starts with an intermediate that the layout lists as well; the one
+		// behind it is in that file only
+		if nInter == 2 {
+			c.LayoutInters, c.CallerInters, c.Bundle = []string{"i0"}, []string{"i0", "i1"}, "forward"
+		}
 	case "inter-missing", "inter-moved-to-nowhere":
 		if nInter > 0 {
 			drop := fmt.Sprintf("i%d", rapid.IntRange(0, nInter-1).Draw(t, "dropinter"))
@@ -333,7 +355,7 @@ func c07Gen(t *rapid.T) c07Case {
 		if twoRoots && !contains(c.LayoutRoots, "r1") {
 			leaf.Issuer = "r1"
 		}
-	case "attr-subset", "attr-superset", "attr-disjoint", "attr-must-be-empty":
+	case "attr-subset", "attr-superset", "attr-disjoint", "attr-must-be-empty", "attr-star-among-values":
 		cl, vl := pickAttr()
 		all := []string{"a.example", "b.example", "c.example"}
 		switch {
@@ -362,6 +384,10 @@ func c07Gen(t *rapid.T) c07Case {
 		case "attr-disjoint":
 			*vl = []string{all[0]}
 			*cl = []string{all[1]}
+		case "attr-star-among-values":
+			// a star is the wildcard only when it is the whole list
+			*vl = [][]string{{all[0]}, {all[0], all[1]}, {all[2]}}[rapid.IntRange(0, 2).Draw(t, "starvals")]
+			*cl = [][]string{{"*", all[1]}, {all[0], "*"}, {"*", "*"}, {"*", all[0], all[1], all[2]}, {"", all[0]}}[rapid.IntRange(0, 4).Draw(t, "starlist")]
 		case "attr-must-be-empty":
 			*vl = []string{all[0]}
 			if rapid.Bool().Draw(t, "emptyform") {
@@ -423,7 +449,7 @@ func c07Gen(t *rapid.T) c07Case {
 		}
 	}
 	c.PKI.Certs = append(c.PKI.Certs, leaf)
-	if len(c.CallerInters) >= 2 {
+	if len(c.CallerInters) >= 2 && c.Flip != "bundle-first-known" {
 		c.Bundle = rapid.SampledFrom([]string{"", "forward", "reverse"}).Draw(t, "bundle")
 	}
 	if rapid.IntRange(0, 7).Draw(t, "nolayoutroots") == 0 {
